@@ -1,10 +1,10 @@
 SPECIFICATION Spec
 CONSTANTS
-  Proto = 6
+  Proto = 4
   Tries = 2
-  MaxReplies = 2
-  Rapid = TRUE
-  Inform = FALSE
+  MaxReplies = 1
+  Rapid = FALSE
+  Inform = TRUE
   EmitCases = TRUE
 INVARIANTS Emit
 CHECK_DEADLOCK FALSE
